@@ -78,6 +78,25 @@ class Ctx:
     def tabled(self, what: str, reason: str) -> None:
         self.exceptions.append(f"{what}: {reason}")
 
+    def borrow(self, module_name: str, from_rule: str, as_rule: str, only=None) -> int:
+        """Instances of another property's rule decided here under a rule of this property (the two properties depend on the same
+        construct): the other checker is run on the same parsed program in a scratch context and the instances of `from_rule`
+        (optionally filtered by `only(instance)`) are recorded under `as_rule`.  An analysis error of the lender is this check's too."""
+        import importlib
+
+        cache = self.__dict__.setdefault("_borrow_cache", {})
+        if module_name not in cache:
+            sub = Ctx(module_name.upper(), self.tier, self.seed, self.P)
+            importlib.import_module(f"sa.props.{module_name}").run(sub)
+            cache[module_name] = sub
+        n = 0
+        for i in cache[module_name].instances:
+            if i.rule == from_rule and (only is None or only(i)):
+                self.instances.append(Instance(as_rule, i.construct, i.ok, i.loc, i.msg, i.detail, i.nontrivial))
+                n += 1
+        self.count(f"borrowed {from_rule}", n)
+        return n
+
 
 def load_known() -> list[dict]:
     out = []
